@@ -95,7 +95,9 @@ def pattern_forms():
             # directory-only patterns that would also match file names; patterns for the mixed-case extension
             "e*/", "k.cmake/", "e3.CMake", "e[0-9].*", "*.CMake",
             # a trailing '/*' two and one level(s) above the input: everything below is excluded, the input included
-            "BOX/*", "ANCESTOR/*", "**/work/*"]
+            "BOX/*", "ANCESTOR/*", "**/work/*",
+            # a file's name without its extension is another name (bare, absolute, and equal to a directory's name)
+            "k", "e1", "ABSF:e2", "ABSF:x1/m", "y.cmake", "deep.cmake"]
 
 
 BLANK_FILES = ["old api.cmake", "api.cmake", "k.cmake"]
@@ -232,6 +234,11 @@ def run_case(job):
             argv = [a if a != "s.yaml" else box.path("work", "s.yaml") for a in argv]
             argv[argv.index("-o") + 1] = box.path("work", "out")
             r = box.run(argv + ["../../in"], cwd="work/build/deep", schedule=schedule, user_config=ucfg)
+        elif variant == "excluded-first":
+            # an input that is itself excluded in front of (and behind) the one under test: it is skipped, the others are not
+            box.build({"first/zz.cmake": fsbox.cmake_content("zz.cmake"), "last/zz.cmake": fsbox.cmake_content("zz.cmake")})
+            extra = ["-e", box.path("work", "first") + "/", "-e", "last/"]
+            r = box.run(argv + extra + ["first", "in", "last"], schedule=schedule, user_config=ucfg)
         elif variant == "two-inputs":
             # a first input in front of the one under test: the patterns apply to every input
             box.build({"first/zz.cmake": fsbox.cmake_content("zz.cmake")})
@@ -308,6 +315,8 @@ def run(ctx):
             jobs.append((FILES, DIRS, ps, "sfile", True, None, False, "two-inputs"))
     for ps in psets:
         jobs.append((FILES, DIRS, ps, "cli", True, None, False, "dotdot"))
+        if not any(p in ("INPUT/", "in", "in/", "i*/", "**/in/", "ANCESTOR/", "*.cmake", "BOX/*", "ANCESTOR/*", "**/work/*") for p in ps):
+            jobs.append((FILES, DIRS, ps, "sfile", True, None, False, "excluded-first"))
     for ps in [[p] for p in blank_forms()]:
         for src in sources:
             for sched in (None, ("reversed", ())):
